@@ -75,16 +75,61 @@ var anchorPreds = map[string]anchorPred{
 		return false
 	},
 	"client/setec:StoreConfig.secretNames": func(p *eng.Prog, f *ssa.Function) bool {
-		return recvIs(f, setecPkg, "StoreConfig") && f.Signature.Results().Len() == 3 && resultIs(f, 0, func(t types.Type) bool {
-			sl, ok := t.Underlying().(*types.Slice)
-			return ok && isStringType(sl.Elem())
-		})
+		// (the name list, the parsed structs, an error -- as three results,
+		// or the first two bundled in a struct)
+		if !recvIs(f, setecPkg, "StoreConfig") {
+			return false
+		}
+		n := f.Signature.Results().Len()
+		if n == 3 {
+			return resultIs(f, 0, func(t types.Type) bool { return namesKind(t) == "names" })
+		}
+		if n == 2 && resultIs(f, 1, eng.IsErrorType) {
+			return resultIs(f, 0, func(t types.Type) bool {
+				st, ok := t.Underlying().(*types.Struct)
+				if !ok {
+					return false
+				}
+				for i := 0; i < st.NumFields(); i++ {
+					if namesKind(st.Field(i).Type()) == "names" {
+						return true
+					}
+				}
+				return false
+			})
+		}
+		return false
 	},
 	"client/setec:(*Store).isActiveSetValid": func(p *eng.Prog, f *ssa.Function) bool {
 		// the validity gate: a bool over the active set (a method of the
 		// store, or a function given the map), nothing else
-		if len(f.Params) != 1 || f.Signature.Results().Len() != 1 || !resultIs(f, 0, func(t types.Type) bool { return types.Identical(t.Underlying(), types.Typ[types.Bool]) }) {
+		// (answering with a bool, or with an error naming the first defect)
+		if len(f.Params) != 1 || f.Signature.Results().Len() != 1 || !(resultIs(f, 0, func(t types.Type) bool { return types.Identical(t.Underlying(), types.Typ[types.Bool]) }) || resultIs(f, 0, eng.IsErrorType)) {
 			return false
+		}
+		// it only inspects: no request, no write of the set
+		if resultIs(f, 0, eng.IsErrorType) {
+			pure := true
+			eng.Instrs(f, func(in ssa.Instruction) {
+				switch x := in.(type) {
+				case *ssa.MapUpdate:
+					pure = false
+				case *ssa.Store:
+					// (stores into fresh local memory -- the argument array of fmt.Errorf -- are fine)
+					if !freshBase(x.Addr) {
+						if ia, isIA := x.Addr.(*ssa.IndexAddr); !isIA || !freshBase(ia.X) {
+							pure = false
+						}
+					}
+				case ssa.CallInstruction:
+					if x.Common().IsInvoke() {
+						pure = false
+					}
+				}
+			})
+			if !pure {
+				return false
+			}
 		}
 		for _, l := range mapLoops(f) {
 			if isActiveSetValue(l.Range.X) {
@@ -175,9 +220,21 @@ var anchorPreds = map[string]anchorPred{
 		return resultIs(f, 0, func(t types.Type) bool { _, ok := t.Underlying().(*types.Signature); return ok })
 	},
 	"client/setec:do": func(p *eng.Prog, f *ssa.Function) bool {
-		return f.Signature.Recv() == nil && hasInstr(f, false, callsWhere(func(cc *ssa.CallCommon) bool {
-			return eng.CalleeIs(cc, "net/http", "NewRequestWithContext") || eng.CalleeIs(cc, "net/http", "NewRequest")
-		}))
+		// the generic request function: builds the request (itself or in a
+		// helper) and decodes the answer into its type parameter
+		if f.Signature.Recv() != nil || f.TypeParams().Len() == 0 {
+			return false
+		}
+		found := false
+		eng.InstrsDeep(f, func(_ *ssa.Function, in ssa.Instruction) {
+			if ci, ok := in.(ssa.CallInstruction); ok {
+				cc := ci.Common()
+				if eng.CalleeIs(cc, "net/http", "NewRequestWithContext") || eng.CalleeIs(cc, "net/http", "NewRequest") {
+					found = true
+				}
+			}
+		})
+		return found
 	},
 	"server:(*Server).getIdentity": func(p *eng.Prog, f *ssa.Function) bool {
 		return recvIs(f, "server", "Server") && f.Signature.Results().Len() == 2 && resultIs(f, 0, func(t types.Type) bool { return eng.IsNamed(t, "db", "Caller") }) && resultIs(f, 1, eng.IsErrorType)
@@ -340,4 +397,66 @@ func isActiveSetValue(v ssa.Value) bool {
 		}
 	}
 	return false
+}
+
+// namesKind: which part of the name collection's answer has type t: "names"
+// ([]string), "fields" (the parsed structs) or "".
+func namesKind(t types.Type) string {
+	sl, ok := t.Underlying().(*types.Slice)
+	if !ok {
+		return ""
+	}
+	if isStringType(sl.Elem()) {
+		return "names"
+	}
+	if eng.IsNamed(sl.Elem(), setecPkg, "Fields") {
+		return "fields"
+	}
+	return ""
+}
+
+// namesPartOf: v is (part of) the answer of a call of the name collection:
+// one of its results, or a field of the struct bundling them.
+func namesPartOf(v ssa.Value) (call *ssa.Call, part string) {
+	v = eng.OriginX(v)
+	if f, ok := v.(*ssa.Field); ok {
+		if c, _ := eng.TupleCall(eng.Origin(f.X)); c != nil {
+			return c, namesKind(f.Type())
+		}
+		return nil, ""
+	}
+	if _, base, isF := eng.LoadedField(v); isF {
+		b := eng.Origin(base)
+		if al, isAl := b.(*ssa.Alloc); isAl {
+			if sts := eng.CellStores(al); len(sts) == 1 {
+				b = eng.Origin(sts[0].Val)
+			}
+		}
+		if c, _ := eng.TupleCall(b); c != nil {
+			return c, namesKind(v.Type())
+		}
+		return nil, ""
+	}
+	if c, _ := eng.TupleCall(v); c != nil {
+		return c, namesKind(v.Type())
+	}
+	return nil, ""
+}
+
+// namesReturned: the value of the given part in a return of the name
+// collection (a result, or a field of the struct literal returned).
+func namesReturned(r *ssa.Return, part string) ssa.Value {
+	for _, v := range eng.RetVals(r) {
+		if namesKind(v.Type()) == part {
+			return v
+		}
+		if fields, _, ok := eng.LiteralFields(eng.Origin(v)); ok {
+			for _, fv := range fields {
+				if namesKind(fv.Type()) == part {
+					return fv
+				}
+			}
+		}
+	}
+	return nil
 }
